@@ -515,6 +515,12 @@ func (s *pDKGStore) SaveCurrent(id string, st *dkg.DBState) error {
 	})
 }
 func (s *pDKGStore) SaveFinished(id string, st *dkg.DBState) error {
+	if e := s.n.e; e.sc.CloseDKGDBAtFinish == s.n.idx+1 && st.Epoch >= 2 {
+		// storage fault: the database goes away just as the completed epoch is about to be recorded
+		_ = s.Store.Close()
+		e.rec.Count("fault:dkg_db_closed_before_completion_was_recorded", 1)
+		return s.Store.SaveFinished(id, st)
+	}
 	s.n.e.onDKGSave(s.n, true, st)
 	return s.n.persist("dkg.SaveFinished", "", func() error {
 		err := s.Store.SaveFinished(id, st)
